@@ -104,6 +104,20 @@ func (g *gen) aclCase(thorough bool) Case {
 	if r.Chance(1, 200) {
 		c.Req = nil
 	}
+	if c.User == nil && c.Req != nil && r.Chance(1, 2) {
+		// no identity AND a request that validation would reject: the call must
+		// still end as Unauthenticated (the ACL is derived before the first Recv)
+		switch r.Intn(4) {
+		case 0:
+			c.Req.Prefix = &GPath{Target: "tx"}
+		case 1:
+			c.Req.Prefix = &GPath{}
+		case 2:
+			c.Req.Prefix = nil
+		case 3:
+			c.Req.HasSub = false
+		}
+	}
 	burst := func() {
 		k := 2 + r.Intn(6)
 		for i := 0; i < k; i++ {
@@ -324,9 +338,12 @@ func nontrivial(c *Case) bool {
 func main() {
 	o := vh.ParseFlags()
 	quietLogs()
-	meta := vh.NewMeta("corpus cases; table: a fixed three-target script (snapshot, then update, subtree delete and whole-target removal per target) under all 8 allow/deny row sets x modes {STREAM,ONCE,POLL} x updates_only x target {*,t1,t2}; random: ACL table over 2 users x 3 targets (allow / deny / missing row), user u1/u2/unknown/absent, ACL installed or not, 2-9 initial notifications, one request (STREAM 58% / ONCE / POLL / unknown mode; target * or single, 1-3 subscription paths), STREAM: 2-10 (thorough 2-17) streamed cache operations (single/multi update, atomic, subtree delete, target removal) across allowed and denied targets, 1/5 of them bursts of 2-7 concurrent writes (one writer goroutine per target, no quiescence in between), in 1/8 of the cases the initial walk itself is overlapped by such a burst; POLL: 0-3 triggers with edits; idle-after-denied: 12 (thorough 100) STREAM scripts on * by a caller denied a target, server WithTimeout(100ms): a denied update/delete, 320 ms of quiet, then an authorised update; two-callers: 160 (thorough 3000) scripts with two overlapping Subscribe calls on one server from the same peer address (first: a STREAM on * by adm/u1/u2; second, while it is open: ONCE/STREAM/POLL by u1/u2/unknown user/no user), each call judged on its own. Every case is run with the ACL and without. distinct = distinct inputs; non-trivial = ACL installed, the un-ACL'd run delivered at least one update and the run with the ACL strictly fewer (filtered or rejected)")
+	meta := vh.NewMeta("corpus cases; table: a fixed three-target script (snapshot, then update, subtree delete and whole-target removal per target) under all 8 allow/deny row sets x modes {STREAM,ONCE,POLL} x updates_only x target {*,t1,t2}; random: ACL table over 2 users x 3 targets (allow / deny / missing row), user u1/u2/unknown/absent, ACL installed or not, 2-9 initial notifications, one request (STREAM 58% / ONCE / POLL / unknown mode; target * or single, 1-3 subscription paths), STREAM: 2-10 (thorough 2-17) streamed cache operations (single/multi update, atomic, subtree delete, target removal) across allowed and denied targets, 1/5 of them bursts of 2-7 concurrent writes (one writer goroutine per target, no quiescence in between), in 1/8 of the cases the initial walk itself is overlapped by such a burst; POLL: 0-3 triggers with edits; idle-after-denied: 12 (thorough 100) STREAM scripts on * by a caller denied a target, server WithTimeout(100ms): a denied update/delete, 320 ms of quiet, then an authorised update; two-callers: 160 (thorough 3000) scripts with two overlapping Subscribe calls on one server from the same peer address (first: a STREAM on * by adm/u1/u2; second, while it is open: ONCE/STREAM/POLL by u1/u2/unknown user/no user), each call judged on its own. Every case is run with the ACL and without. in every generated family (not corpus): with small probability a target and/or the deprecated element list on subscription paths, ignored request fields (Subscription.mode/sample_interval/heartbeat/suppress_redundant, qos, allow_aggregation, use_models, encoding, extension) and another construction of the server (options permuted, nil options interleaved, WithStats/WithFlowControlTest/stats hooks/explicit default timeout added). distinct = distinct inputs; non-trivial = ACL installed, the un-ACL'd run delivered at least one update and the run with the ACL strictly fewer (filtered or rejected)")
 	e := &emitter{dir: o.Out, cf: newCaseFile(), meta: meta, limit: 175, require: "Subscribe.C07Check", twice: true, nontriv: nontrivial}
 
+	if o.Replay == "" {
+		e.noise = vh.NewRand(o.Seed ^ 0x5eed)
+	}
 	if o.Replay != "" {
 		cs, err := readCases(o.Replay)
 		if err != nil {
@@ -365,7 +382,7 @@ func main() {
 	meta.Extra["table_cases"] = nt
 
 	r := vh.NewRand(o.Seed)
-	nrand := 1700
+	nrand := 1500
 	if o.Thorough() {
 		nrand = 30000
 	}
